@@ -55,6 +55,9 @@ func genAgg(seed uint64, tier string, emphasis int) *plan.Plan {
 	pl.Cfg["active_ms"], pl.Cfg["inactive_ms"] = activeMs, inactiveMs
 	pl.Cfg["max_retries"] = int64(r.IntN(4))
 	pl.Cfg["min_expiry_ms"] = []int64{0, 100}[r.IntN(2)]
+	if r.IntN(3) == 0 {
+		pl.Cfg["corr_odd"] = int64(1 + r.IntN(40))
+	}
 	A, I := time.Duration(activeMs)*time.Millisecond, time.Duration(inactiveMs)*time.Millisecond
 	maxRetries := int(pl.Cfg["max_retries"])
 	flows := make([]*genFlow, nk)
